@@ -63,6 +63,9 @@ INIT_MENU = [
     ("wild-a-then-def-x", "from .a import *\ndef x(): ..."), ("def-x-then-wild-a", "def x(): ...\nfrom .a import *"), ("wild-a-wild-b", "from .a import *\nfrom .b import *"),
     ("wild-b-wild-a", "from .b import *\nfrom .a import *"), ("from-dot-a-all", "from . import a\n__all__ = ['x'] + a.__all__\nx = V('pkg:x')"), ("import-pkg-a", "import pkg.a"),
     ("wild-a-all", "from .a import *\n__all__ = ['y']"),
+    # the same wildcard import written twice around another one (the last statement wins, again), and a type-guarded one after a real one (binds nothing)
+    ("wild-a-b-a", "from .a import *\nfrom .b import *\nfrom .a import *"), ("wild-b-a-b", "from .b import *\nfrom .a import *\nfrom .b import *"),
+    ("wild-a-tc-wild-b", "from .a import *\nfrom typing import TYPE_CHECKING\nif TYPE_CHECKING:\n    from .b import *"),
 ]
 INIT_MENU_EXTRA = [
     ("from-a-_p", "from .a import _p"), ("wild-a-all*", "from . import a\nfrom .a import *\n__all__ = [*a.__all__]"), ("from-b-x", "from .b import x"), ("val-x-then-wild-a", "x = V('pkg:x')\nfrom .a import *"),
@@ -143,7 +146,7 @@ E_SUB = {"pkg/sub/__init__.py": "from . import m\nfrom .m import *\n__all__ = m.
 
 # D: relative imports of every level from an `__init__` module and from a plain module THREE packages deep (pkg/mid/deep/): one, two and three dots
 D_STMTS = ["from . import leaf", "from .leaf import w", "from .. import base", "from ..base import Base", "from ..base import *", "from .. import mid_x", "from ... import top", "from ...top import x",
-           "from ...top import *", "from pkg.mid.base import reg as abs_reg"]
+           "from ...top import *", "from pkg.mid.base import reg as abs_reg", "from . import leaf as lf", "from .. import base as bs", "import pkg.mid.deep.sibling as sb"]
 D_LEAF = ["from . import sibling", "from .sibling import s", "from .. import base as leaf_base", "from ..base import Base as LB", "from ... import mid", "from ...mid.base import reg", "from ... import top as leaf_top"]
 
 
@@ -277,8 +280,8 @@ def cpython_view(root, modnames=MODS_FLAT):
                 del sys.modules[k]
 
 
-def griffe_view(griffe, root, modnames=MODS_FLAT):
-    loader = griffe.GriffeLoader(search_paths=[root], allow_inspection=False)
+def griffe_view(griffe, root, modnames=MODS_FLAT, inspection=False):
+    loader = griffe.GriffeLoader(search_paths=[root], allow_inspection=inspection, force_inspection=inspection)
     pkg = loader.load("pkg")
     loader.load("vmod")
     loader.resolve_aliases(implicit=True, external=False)
@@ -379,6 +382,18 @@ def run_case(griffe, acc, case):
                 bad = True
             if bad:
                 break
+        if case[2] in ("exp:", "deep:"):
+            # the same package seen by the other agent (runtime inspection): the names each module binds are the same ones
+            try:
+                with sandbox.interpreter_state():
+                    dyn, _ = griffe_view(griffe, d, modnames, inspection=True)
+                for mod in modnames:
+                    ens, gns = exp[mod][0], dyn[mod][0]
+                    if set(ens) != set(gns):
+                        acc.violation(f"dynamic-agent/names/{_pattern(case, mod)}", f"{mod} inspected: names {sorted(gns)} vs CPython {sorted(ens)}", cd, None, size=size)
+                        break
+            except Exception as e:  # noqa: BLE001
+                acc.violation(f"dynamic-agent/raise/{type(e).__name__}", f"inspection raised {e!r}", cd, None, size=size)
         for alias, target in proxies:
             try:
                 probs = []
